@@ -74,3 +74,10 @@ package browse
 //@ // against exactly that contract (safety and an empty frame), so that assumption is a proved fact
 //@ use @verif/specs/stdlib.spec:stdlib
 //@ func isSymlink
+
+//@ unit archive_serve props=C02 filter=`browse\.Browse\)\.ServeArchive$`
+//@ // C02 "archive walker over the jailed filesystem": the tree that is archived is walked THROUGH the site's http.FileSystem
+//@ // (the root jail), starting at the requested directory - never through the operating system's file API on a joined path
+//@ func (Browse).ServeArchive
+//@   requires w != nil && r != nil && bc != nil
+//@   at call github.com/rakyll/statik/fs.Walk before [walks_the_jailed_filesystem_from_the_requested_directory] arg0 == bc.Fs.Root && arg1 == dirPath
